@@ -680,6 +680,8 @@ func (p *Printer) emit(t *Term) {
 		body = fmt.Sprintf("(%s %s)", t.name, strings.Join(as, " "))
 	case "int2bv":
 		body = fmt.Sprintf("((_ int2bv %d) %s)", t.p1, as[0])
+	case "bv2nat":
+		body = fmt.Sprintf("(bv2nat %s)", as[0])
 	case "to_fp_signed":
 		body = fmt.Sprintf("((_ to_fp 11 53) RNE %s)", as[0])
 	case "to_fp_unsigned":
